@@ -124,7 +124,7 @@ func getSetup(proto string, n, t int, seed string) *setup {
 		if proto == "doerner-sign" {
 			s.alt = runKG(protos.DoernerKeygen(s.ids[0], s.ids[1], []byte("kg-other")))
 		}
-	case "cmp-sign", "cmp-refresh", "cmp-presign", "cmp-presign-online":
+	case "cmp-sign", "cmp-refresh", "cmp-presign", "cmp-presign-online", "cmp-presign-full":
 		s.cfgs = protos.DealCmp(s.ids, t, seed+key)
 	}
 	if proto == "cmp-presign-online" {
@@ -144,7 +144,7 @@ func getSetup(proto string, n, t int, seed string) *setup {
 		}
 		s.group, s.gx = v.Group, v.GroupX
 	}
-	s.sign = strings.HasSuffix(proto, "-sign") || proto == "cmp-presign-online"
+	s.sign = strings.HasSuffix(proto, "-sign") || proto == "cmp-presign-online" || proto == "cmp-presign-full"
 	s.keyg = strings.HasSuffix(proto, "-keygen") || strings.HasSuffix(proto, "-refresh")
 	setups[key] = s
 	return s
@@ -188,6 +188,8 @@ func (s *setup) session(sid []byte) *protos.Session {
 		return protos.CmpSign(s.cfgs, s.ids, s.msg, sid)
 	case s.proto == "cmp-presign":
 		return protos.CmpPresign(s.cfgs, s.ids, sid)
+	case s.proto == "cmp-presign-full":
+		return protos.CmpPresignFull(s.cfgs, s.ids, s.msg, sid)
 	case s.proto == "cmp-presign-online":
 		return protos.CmpPresignOnline(s.cfgs, s.pres, s.ids, s.msg, sid)
 	}
